@@ -76,6 +76,7 @@ func loadEngine(repo, verif string) (*Engine, error) {
 		usedModular: map[string]bool{},
 		pathsOf:     map[string]int{},
 		opaque:      map[string]bool{},
+		regions:     map[string]*Cell{},
 	}
 	for _, p := range prog.AllPackages() {
 		if strings.HasPrefix(p.Pkg.Path(), modulePath) {
